@@ -28,7 +28,6 @@ INFIX = {"+", "-", "*", "/", "%", "^", "<", "<=", "==", "!=", ">", ">=", "in", "
 CMP = ("<", "<=", ">", ">=")
 ENCL2 = ("+", "-", "*", "/", "^", "min", "max", "log")          # interval (x) number -> interval
 ENCL1 = ("-", "+", "abs", "sqrt", "ln", "log2", "log10")         # interval -> interval
-E_HEX = math.e.hex()
 
 # ------------------------------------------------------------------ numbers and trees
 # number token: "3", "-3/2", "f:<float.hex>", "e".  tree: ["n", tok] | ["c1", name, a] | ["c2", name, a, b]
@@ -105,6 +104,20 @@ def tree_has_float(t):
     if t[0] == "n":
         return tok_is_float(t[1])
     return any(tree_has_float(x) for x in t[2:])
+
+
+def tree_is_floaty(t):
+    """a node whose value is computed in float arithmetic even on rational operands: sqrt/log, and
+    ^ with a negative or non-integer exponent (int ** -k is a float)"""
+    for n in subtrees(t):
+        if n[0] == "n":
+            continue
+        if n[1] in ("sqrt", "ln", "log2", "log10", "log"):
+            return True
+        if n[1] == "^" and not (n[3][0] == "n" and not tok_is_float(n[3][1])
+                                and tok_value(n[3][1]).denominator == 1 and tok_value(n[3][1]) >= 0):
+            return True
+    return False
 
 
 def subtrees(t):
@@ -189,7 +202,7 @@ def impl_case(case):
     if o.get("hung"):
         r["hung"] = True
         return r
-    taint = tree_has_float(tree)
+    taint = tree_has_float(tree) or tree_is_floaty(tree)
     # operand values of the top node, by the implementation
     ops = []
     ops_ok = True
@@ -288,7 +301,7 @@ def impl_case(case):
         fv, ra, rb = _frac(v), _frac(R.a), _frac(R.b)
         if fv is None or ra is None or rb is None:
             return False
-        if isinstance(v, float) or isinstance(R.a, float) or isinstance(R.b, float):
+        if taint or isinstance(v, float) or isinstance(R.a, float) or isinstance(R.b, float):
             slack = Fraction(1, 10 ** 12) * max(1, abs(fv), abs(ra), abs(rb))
         else:
             slack = 0
